@@ -21,6 +21,10 @@ fn tick_and_maybe_fail() -> bool {
         f
     }
 }
+pub unsafe fn disarm() {
+    CALLS = 0;
+    FAIL_AT = usize::MAX;
+}
 fn arm(max_calls: usize) {
     let k: usize = any();
     assume(k <= max_calls); // k == max_calls: no panic at all
